@@ -1,0 +1,18 @@
+//go:build verif
+
+// Contracts for govc (see /verif/DESIGN.md). Comment-only; compiled only with -tags verif.
+
+package tif
+
+//@ property C15
+
+// "if": the then-steps run (first DROP wins) iff the record matches; otherwise PASS and nothing is called
+//@ func (tf *ifTransform) Transform(record *base.LogRecord) base.FilterResult
+//@   requires tf != nil && record != nil && bmatch.validmatcher(tf.matcher, record) && forall j int :: 0 <= j && j < len(tf.thenSteps) ==> tf.thenSteps[j] != nil
+//@   modifies everything
+//@   preserves mem(base.LogTransformFunc), mem(base.LogFieldLocator), base.LogRecord.Fields
+//@   ensures[no-match-nothing-runs] !old(bmatch.matchall(tf.matcher, record)) ==> result == base.PASS && base.tlogn == old(base.tlogn)
+//@   ensures[match-runs-then-steps] old(bmatch.matchall(tf.matcher, record)) ==> exists k int :: 0 <= k && k <= len(tf.thenSteps) && base.tlogn == old(base.tlogn) + k
+//@        && (forall j int :: 0 <= j && j < k ==> base.tlog[old(base.tlogn) + j] == ref(old(tf.thenSteps[j])))
+//@        && (result == base.DROP ==> k >= 1 && base.tres[old(base.tlogn) + k - 1] == 0)
+//@        && (result == base.PASS ==> k == len(tf.thenSteps))
